@@ -152,8 +152,8 @@ def validate_request(request, json_config):
     param_types = (utils.ListType, utils.DictType, utils.TupleType)
 
     if (
-        not method
-        or not isinstance(method, utils.STRING_TYPES)
+        not isinstance(method, utils.STRING_TYPES)
+        or not method
         or not isinstance(params, param_types)
     ):
         # Invalid type of method name or parameters
@@ -218,8 +218,16 @@ class SimpleJSONRPCDispatcher(SimpleXMLRPCDispatcher, object):
                  was a notification
         :raise NoMulticallResult: No result in batch
         """
-        if not request:
+        if request is None or (
+            isinstance(
+                request,
+                (utils.DictType, utils.ListType) + utils.STRING_TYPES,
+            )
+            and not request
+        ):
             # Invalid request dictionary
+            # (the truth value is only computed for JSON containers and text:
+            # the request could be a bean whose __len__ or __bool__ fails)
             fault = Fault(
                 -32600,
                 "Request invalid -- no request data.",
